@@ -20,7 +20,7 @@ Two obligations over the same generated domain (atoms 2-51, v_min < v_max, gamma
     numpy implementation, ``reference_projection``) and the online log-distribution of the action taken (1-step, n-step with
     gamma**n_step, combined = sum of both); with ``per=False`` the returned scalar is the mean of that per-sample
     cross-entropy (this is the loss the network "trains towards").  The online distribution is read through the public
-    forward (``actor(obs, q=False, log=True)`` and, equally accepted, the log of the clamped ``q=False`` output).
+    forward (``actor(obs, q=False, log=True)``; it must be normalised over the atoms - checked on its own).
 
 Crashes: the statement quantifies over every support range / reward / batch of the domain, so an exception escaping ``_dqn_loss``
 or ``learn`` there means no projection / no priority exists for that batch: violation ``C18/crash/<ExcType>@<file:function>`` (the
@@ -80,6 +80,15 @@ def perturb_target(agent, seed, scale):
         for k, t in T.all_tensors(agent.actor_target).items():
             if k in weights and t.is_floating_point():
                 t.add_(torch.randn(t.shape, generator=g) * scale)
+
+
+def sharpen_online(agent, scale):
+    """'every online network weights': a trained Rainbow network is peaked (some atoms far below probability 1e-3), a freshly
+    initialised one is almost uniform. Scale the output layers of the online head so that both kinds occur."""
+    with torch.no_grad():
+        for k, p in agent.actor.named_parameters():
+            if "linear_layer_output" in k and (k.endswith("weight_mu") or k.endswith("bias_mu") or k.endswith(".weight") or k.endswith(".bias")):
+                p.mul_(scale)
 
 
 def target_differs(agent):
@@ -408,14 +417,12 @@ def reference_ce(agent, batch, g, case):
     with torch.no_grad():
         obs = agent.preprocess_observation(_clone(batch["obs"]))
         logq = agent.actor(obs, q=False, log=True).double()[torch.arange(B), a].numpy()
-        logq_cl = torch.log(agent.actor(obs, q=False).double())[torch.arange(B), a].numpy()
     out = []
     for name, na, src in source_candidates(agent, batch):
         m = reference_projection(src, r, d, g, vmin, vmax, n)
         # slack: moving a weight error of one index_error_unit between neighbouring atoms changes the row's cross-entropy by at most
         # unit * mass * 2 max|log q|
         out.append((f"greedy={name},log_softmax", -(m * logq).sum(1), 2 * np.abs(logq).max(1) * src.sum(1)))
-        out.append((f"greedy={name},log_of_clamped", -(m * logq_cl).sum(1), 2 * np.abs(logq_cl).max(1) * src.sum(1)))
     return out
 
 
@@ -423,6 +430,8 @@ def run_priorities(case, ctx):
     spec = make_spec(case)
     try:
         agent = ag.build(spec)
+        if case.get("oscale"):
+            sharpen_online(agent, case["oscale"])
         perturb_target(agent, case["pseed"], case["pscale"])
     except Exception as e:  # noqa: BLE001 - precondition only
         ctx.label(f"setup-failed:{type(e).__name__}")
@@ -448,6 +457,18 @@ def run_priorities(case, ctx):
             nb, rowsn = make_batch(agent, spec, case, bd, "n")
             parts.append((nb, gn))
             feats |= batch_labels(ctx, rowsn, nb["reward"].double().numpy().reshape(-1), nb["done"].double().numpy().reshape(-1), gn, case)
+        # the "online distribution of the action taken" is a probability distribution: its log-probabilities must be normalised
+        # (independent of how forward() computes them; a floor / clamp on small probabilities breaks this for peaked networks)
+        with torch.no_grad():
+            o_ = agent.preprocess_observation(_clone(one["obs"]))
+            lq_ = agent.actor(o_, q=False, log=True).double()
+            lse = torch.logsumexp(lq_, dim=-1)
+            pmin = float(lq_.exp().min())
+        ctx.label("online-peaked(p_min<1e-3)" if pmin < 1e-3 else "online-flat")
+        if float(lse.abs().max()) > 1e-4:
+            ctx.fail("C18/online_distribution/log_probabilities_not_normalised",
+                     "the online log-distribution the loss is taken against does not sum to one over the atoms",
+                     max_abs_logsumexp=float(lse.abs().max()), smallest_probability=pmin, atoms=case["atoms"])
         # reference BEFORE learn (same weights, same noise buffers)
         cands = None
         for b, g in parts:
@@ -553,7 +574,8 @@ def case_strategy(kind):
                 "gamma": draw(st.one_of(st.sampled_from(GAMMAS), st.integers(1, 999).map(lambda i: i / 1000.0))),
                 "n_step": draw(st.integers(1, 5)), "prior_eps": draw(st.sampled_from(PRIOR_EPS)),
                 "combined": draw(st.integers(0, 1)), "pseed": draw(st.integers(0, 999)),
-                "pscale": draw(st.sampled_from([0.1, 0.3, 1.0])), "batches": batches}
+                "pscale": draw(st.sampled_from([0.1, 0.3, 1.0])), "batches": batches,
+                "oscale": draw(st.sampled_from([0, 0, 10.0, 60.0, 200.0]))}
         if kind == "projection":
             case["warm"] = draw(st.lists(st.integers(0, 99), min_size=0, max_size=2))
         return case
@@ -582,10 +604,11 @@ PROPERTY = Property(
     assumptions=["batches have exactly agent.batch_size rows, reward/done (B,1), built through Transition + ReplayBuffer; n-step batch shares obs/action",
                  "source distribution = actor_target(next_obs, q=False) (clamped softmax, mass >= 1) at the greedy next action; greedy by the "
                  "online network or by the target network both accepted",
-                 "online distribution = actor(obs, q=False, log=True) or log of the clamped q=False output, both accepted",
+                 "online distribution = actor(obs, q=False, log=True), which must be normalised (logsumexp over the atoms = 0 +- 1e-4); in 3 of 5 "
+                 "cases the online head's output layers are scaled x10 / x60 / x200 so that peaked (trained-like) networks occur",
                  "_dqn_loss(states, actions, rewards, next_states, dones, gamma) is internal: absent/changed => labels only, (b) decides",
                  "per=True scalar loss is not compared (weights are (B,1): broadcasting against (B,) is outside the statement)",
                  "tolerances: conservation 1e-5 relative to max(1,|v_min|,|v_max|) x mass, cross-entropy 1e-4 relative, each plus a few units of the "
                  "float32 index error eps32 (N-1) max(1, max|v| / (v_max - v_min)) (see index_error_unit)"],
-    wanted_labels=["on-atom", "clipped-low", "clipped-high", "done", "done-on-atom", "n-step", "1-step", "combined", "per=True", "per=False"],
+    wanted_labels=["online-peaked(p_min<1e-3)", "online-flat", "on-atom", "clipped-low", "clipped-high", "done", "done-on-atom", "n-step", "1-step", "combined", "per=True", "per=False"],
 )
